@@ -119,6 +119,19 @@ pub fn parse_wmo_with_metadata<R: Read + Seek>(reader: &mut R) -> Result<ParseRe
         ))
     })?;
 
+    // A WMO file is either a root (MOHD) or a group (MOGP). Without one of them there is
+    // nothing to parse: an empty or unrelated file must not come back as a valid group.
+    if !discovery
+        .chunks
+        .iter()
+        .any(|chunk| matches!(chunk.id.as_str(), "MOHD" | "MOMT" | "MOGP"))
+    {
+        return Err(WmoError::InvalidFormat(
+            "Not a WMO file: neither a root header (MOHD) nor a group (MOGP) chunk found"
+                .to_string(),
+        ));
+    }
+
     // Clone discovery for return
     let discovery_clone = discovery.clone();
 
